@@ -1,6 +1,10 @@
 import DendroModel.Model.C04
+import DendroModel.Model.C04State
 import DendroModel.Props.C01
 import DendroModel.Theory.C04Bridge
+import DendroModel.Theory.C04Nodup
+import DendroModel.Theory.C04Seed
+import DendroModel.Theory.C04Sum
 import Mathlib.Data.Finset.SymmDiff
 import Mathlib.Data.Finset.Card
 import Mathlib.Data.List.Dedup
@@ -814,4 +818,602 @@ example : T.toH (C01.encodeTree (some false) true true exU) = .node ([] ++ .node
   simp [Hier.GoodL, Hier.Good, Hier.mask, Hier.maskL]
 example : (edgeRecs (some false) exU).map (·.split) = [14, 2, 12, 4, 8, 0] := by decide
 example : (edgeRecs (some false) exV).map (·.split) = [14, 2, 4, 8, 12, 0] := by decide
+end DendroModel.C04
+
+/-! ## extension round: distinct rooted splits, paths of seed moves -/
+namespace DendroModel.C04
+open DendroModel DendroModel.C04.Aux
+
+/-- **no two edges of a well-formed rooted tree induce the same split**: the split list the driver computes for a rooted
+    tree is duplicate-free (so the split → edge map loses no edge, and the `Nodup` hypotheses below are dischargeable) -/
+theorem rooted_splits_nodup (t : T) (hg : Hier.Good (T.toH t)) (h0 : T.mask t ≠ 0) :
+    ((edgeRecs (some true) t).map (·.split)).Nodup := by
+  rw [edgeRecs_splits_rooted]
+  exact (masksPost_sup_nodup t hg h0).map (fun _ _ h => Int.ofNat.inj h)
+
+example : Hier.Good (T.toH exA) ∧ T.mask exA ≠ 0 := by
+  simp [exA, T.toH, T.toHL, Hier.Good, Hier.GoodL, Hier.mask, Hier.maskL, T.mask, T.maskL]
+
+/-- **reordering the children of a well-formed rooted tree changes no weighted distance** — `dist_child_order_partial` for
+    rooted trees with its `Nodup` hypothesis discharged by `rooted_splits_nodup` (full for the child-order clause, rooted) -/
+theorem dist_child_order_rooted (r2 : Option Bool) (t t' u : T) (h : CIso t t')
+    (hg : Hier.Good (T.toH t)) (h0 : T.mask t ≠ 0) :
+    wrf (edgeMap (edgeRecs (some true) t)) (edgeMap (edgeRecs r2 u)) = wrf (edgeMap (edgeRecs (some true) t')) (edgeMap (edgeRecs r2 u))
+    ∧ wrf (edgeMap (edgeRecs r2 u)) (edgeMap (edgeRecs (some true) t)) = wrf (edgeMap (edgeRecs r2 u)) (edgeMap (edgeRecs (some true) t'))
+    ∧ euclidSq (edgeMap (edgeRecs (some true) t)) (edgeMap (edgeRecs r2 u)) = euclidSq (edgeMap (edgeRecs (some true) t')) (edgeMap (edgeRecs r2 u))
+    ∧ euclidSq (edgeMap (edgeRecs r2 u)) (edgeMap (edgeRecs (some true) t)) = euclidSq (edgeMap (edgeRecs r2 u)) (edgeMap (edgeRecs (some true) t'))
+    ∧ (∀ w, wrf (edgeMap (edgeRecs (some true) t)) (edgeMap (edgeRecs (some true) t')) = some w → w = 0)
+    ∧ (∀ w, euclidSq (edgeMap (edgeRecs (some true) t)) (edgeMap (edgeRecs (some true) t')) = some w → w = 0) :=
+  dist_child_order_partial (some true) r2 t t' u h (Or.inl rfl) (rooted_splits_nodup t hg h0)
+
+/-- the driver's split list of a tree that is not rooted, as a set: the normalised clades of its encoded form -/
+theorem splits_unrooted_nsplits (r : Option Bool) (hr : r ≠ some true) (t : T) (x : Int) :
+    x ∈ (edgeRecs r t).map (·.split) ↔
+      ∃ s ∈ Hier.nsplits (Lsb.lsb (Hier.mask (T.toH (C01.encodeTree r true true t)))) (T.toH (C01.encodeTree r true true t)),
+        x = ((s : Nat) : Int) := by
+  rw [splits_unrooted_mem r hr]
+  simp only [Hier.nsplits, List.mem_map]
+  constructor
+  · rintro ⟨m, hm, rfl⟩; exact ⟨_, ⟨m, hm, rfl⟩, rfl⟩
+  · rintro ⟨s, ⟨m, hm, rfl⟩, rfl⟩; exact ⟨m, hm, rfl⟩
+
+/-- **moving the seed of an unrooted tree along any path keeps every unweighted distance** (`rf_zero_seed_move_partial`
+    iterated): if the encoded forms of two not-rooted trees are connected by a path of seed moves (each move makes a child of
+    the seed the new seed, the old seed keeping at least one other child), then RF between them is 0, and false positives /
+    negatives and the missing-split set against any third tree are the same for both, in both argument positions -/
+theorem fpfn_seed_path (r r' r2 : Option Bool) (hr : r ≠ some true) (hr' : r' ≠ some true) (t t' u : T)
+    (hg : Hier.Good (T.toH (C01.encodeTree r true true t)))
+    (h0 : Hier.mask (T.toH (C01.encodeTree r true true t)) ≠ 0)
+    (hp : Relation.ReflTransGen Hier.SeedStep (T.toH (C01.encodeTree r true true t)) (T.toH (C01.encodeTree r' true true t'))) :
+    rf ((edgeRecs r t).map (·.split)) ((edgeRecs r' t').map (·.split)) = 0
+    ∧ fpfn ((edgeRecs r t).map (·.split)) ((edgeRecs r2 u).map (·.split))
+        = fpfn ((edgeRecs r' t').map (·.split)) ((edgeRecs r2 u).map (·.split))
+    ∧ fpfn ((edgeRecs r2 u).map (·.split)) ((edgeRecs r t).map (·.split))
+        = fpfn ((edgeRecs r2 u).map (·.split)) ((edgeRecs r' t').map (·.split))
+    ∧ (∀ x, x ∈ missing ((edgeRecs r t).map (·.split)) ((edgeRecs r2 u).map (·.split))
+          ↔ x ∈ missing ((edgeRecs r' t').map (·.split)) ((edgeRecs r2 u).map (·.split))) := by
+  set a := T.toH (C01.encodeTree r true true t) with ha
+  set b := T.toH (C01.encodeTree r' true true t') with hb
+  have hpos : 0 < Hier.mask a := Nat.pos_of_ne_zero h0
+  obtain ⟨k, hk, hkL, _⟩ := C01.lsb_spec (Hier.mask a) hpos
+  have hlo : Hier.bits (Lsb.lsb (Hier.mask a)) ⊆ Hier.bits (Hier.mask a) := by
+    rw [hk, Hier.bits_shift]; intro i hi; rw [Set.mem_singleton_iff] at hi; subst hi; exact hkL
+  have hsingle : ∀ x, Hier.bits (Lsb.lsb (Hier.mask a)) ⊆ Hier.bits x ∨ Disjoint (Hier.bits (Lsb.lsb (Hier.mask a))) (Hier.bits x) := by
+    intro x
+    rw [hk, Hier.bits_shift]
+    by_cases h : k ∈ Hier.bits x
+    · left; intro i hi; rw [Set.mem_singleton_iff] at hi; subst hi; exact h
+    · right; exact Set.disjoint_singleton_left.mpr h
+  have hne : Lsb.lsb (Hier.mask a) ≠ 0 := by rw [hk]; exact Hier.shift_ne_zero k
+  obtain ⟨_, hm, hs⟩ := Hier.path_nsplits hp hg (Lsb.lsb (Hier.mask a)) hlo hsingle hne
+  have hset : ∀ x, x ∈ (edgeRecs r t).map (·.split) ↔ x ∈ (edgeRecs r' t').map (·.split) := by
+    intro x
+    rw [splits_unrooted_nsplits r hr, splits_unrooted_nsplits r' hr', ← ha, ← hb, hm]
+    constructor
+    · rintro ⟨s, h1, rfl⟩; exact ⟨s, (hs s).mpr h1, rfl⟩
+    · rintro ⟨s, h1, rfl⟩; exact ⟨s, (hs s).mp h1, rfl⟩
+  refine ⟨(rf_zero_iff _ _).mpr hset, fpfn_congr _ _ _ _ hset (fun _ => Iff.rfl), fpfn_congr _ _ _ _ (fun _ => Iff.rfl) hset, ?_⟩
+  intro x; rw [missing_spec, missing_spec, hset x]
+
+/-- sample path of two seed moves: `((t0,t1),t2,(t3,t4))` → `(t0,t1,(t2,(t3,t4)))` … seen from `(t3,t4,(t2,(t0,t1)))` -/
+example : Relation.ReflTransGen Hier.SeedStep
+    (T.toH (C01.encodeTree (some false) true true exU))
+    (T.toH (C01.encodeTree (some false) true true exV)) :=
+  Relation.ReflTransGen.single (Hier.SeedStep.mk [] [.leaf 0, .leaf 1] [.leaf 2, .leaf 3] (by simp))
+example : Hier.Good (T.toH (C01.encodeTree (some false) true true exU)) ∧ Hier.mask (T.toH (C01.encodeTree (some false) true true exU)) ≠ 0 := by
+  refine ⟨?_, by decide⟩
+  show Hier.Good (.node [.node [.leaf 0, .leaf 1], .leaf 2, .leaf 3])
+  simp [Hier.GoodL, Hier.Good, Hier.mask, Hier.maskL]
+
+end DendroModel.C04
+
+namespace DendroModel.C04.Aux
+open DendroModel DendroModel.C04
+
+/-! ### re-drawings of a tree: child order and unifurcation insertion -/
+
+/-- the same tree drawn differently: children reordered anywhere, and unifurcations inserted on edges with the edge's
+    length split between the two parts (as rationals, a missing length counting 0) -/
+inductive Redraw : T → T → Prop
+  | refl (t : T) : Redraw t t
+  | symm {a b : T} : Redraw a b → Redraw b a
+  | trans {a b c : T} : Redraw a b → Redraw b c → Redraw a c
+  | swap (i x l s) (pre : List T) (a b : T) (post : List T) :
+      Redraw (.node i x l s (pre ++ a :: b :: post)) (.node i x l s (pre ++ b :: a :: post))
+  | child (i x l s) (pre : List T) (c c' : T) (post : List T) :
+      Redraw c c' → Redraw (.node i x l s (pre ++ c :: post)) (.node i x l s (pre ++ c' :: post))
+  | unif (c : T) (i' : Nat) (x' : Option Nat) (s' : Option String) (l1 l2 : Option Frac) :
+      qlen c.len = qlen l1 + qlen l2 → Redraw c (.node i' x' l2 s' [c.withLen l1])
+
+theorem ciso_redraw {t u : T} (h : CIso t u) : Redraw t u := by
+  induction h with
+  | refl t => exact Redraw.refl t
+  | swap i x l s pre a b post => exact Redraw.swap i x l s pre a b post
+  | child i x l s pre c c' post _ ih => exact Redraw.child i x l s pre c c' post ih
+  | trans _ _ ih1 ih2 => exact ih1.trans ih2
+
+theorem masksPost_eq (t : T) : T.masksPost t = T.masksPostL t.cs ++ [t.mask] := by
+  cases t with
+  | node i x l s cs => simp [T.masksPost, T.cs]
+
+theorem masksPostL_append' : ∀ a b : List T, T.masksPostL (a ++ b) = T.masksPostL a ++ T.masksPostL b
+  | [], b => by simp [T.masksPostL]
+  | c :: a, b => by simp [T.masksPostL, masksPostL_append' a b]
+
+/-- what a re-drawing keeps: the leafset, the total length carried by the edges of every leafset, the set of leafsets -/
+theorem redraw_inv {t u : T} (h : Redraw t u) :
+    t.mask = u.mask ∧ (∀ (P : Nat → Bool) (b : Bool), psum P (edgesPost b t) = psum P (edgesPost b u))
+      ∧ (∀ m, m ∈ T.masksPost t ↔ m ∈ T.masksPost u) := by
+  induction h with
+  | refl t => exact ⟨rfl, fun _ _ => rfl, fun _ => Iff.rfl⟩
+  | symm _ ih => exact ⟨ih.1.symm, fun P b => (ih.2.1 P b).symm, fun m => (ih.2.2 m).symm⟩
+  | trans _ _ ih1 ih2 =>
+    exact ⟨ih1.1.trans ih2.1, fun P b => (ih1.2.1 P b).trans (ih2.2.1 P b), fun m => (ih1.2.2 m).trans (ih2.2.2 m)⟩
+  | swap i x l s pre a b post =>
+    have hm := ciso_mask (CIso.swap i x l s pre a b post)
+    refine ⟨hm, ?_, ?_⟩
+    · intro P r
+      rw [edgesPost_node, edgesPost_node, psum_append, psum_append, hm, edgesPostL_append, edgesPostL_append]
+      simp only [edgesPostL, psum_append]
+      ring
+    · intro m
+      rw [masksPost_eq, masksPost_eq, hm]
+      simp only [T.cs, masksPostL_append', T.masksPostL, List.mem_append, List.mem_singleton]
+      tauto
+  | child i x l s pre c c' post _ ih =>
+    have hm : T.mask (.node i x l s (pre ++ c :: post)) = T.mask (.node i x l s (pre ++ c' :: post)) := by
+      rw [mask_of_ne_nil _ _ _ _ (by simp), mask_of_ne_nil _ _ _ _ (by simp), maskL_append, maskL_append]
+      simp only [T.maskL, ih.1]
+    refine ⟨hm, ?_, ?_⟩
+    · intro P r
+      rw [edgesPost_node, edgesPost_node, psum_append, psum_append, hm, edgesPostL_append, edgesPostL_append]
+      simp only [edgesPostL, psum_append, ih.2.1 P false]
+    · intro m
+      rw [masksPost_eq, masksPost_eq, hm]
+      simp only [T.cs, masksPostL_append', T.masksPostL, List.mem_append, List.mem_singleton, ih.2.2 m]
+  | unif c i' x' s' l1 l2 hq =>
+    have hm : T.mask (.node i' x' l2 s' [c.withLen l1]) = c.mask := by simp [T.mask, T.maskL, withLen_mask']
+    refine ⟨hm.symm, ?_, ?_⟩
+    · intro P r
+      rw [edgesPost_node, hm, edgesPost_eq r c]
+      simp only [edgesPostL, List.append_nil]
+      rw [edgesPost_eq false (c.withLen l1), withLen_cs, withLen_len, withLen_mask']
+      simp only [psum_append, psum_single]
+      by_cases hp : P c.mask <;> simp [hp]
+      rw [hq]; ring
+    · intro m
+      rw [masksPost_eq (.node i' x' l2 s' [c.withLen l1]), hm]
+      simp only [T.cs, T.masksPostL, List.append_nil]
+      rw [masksPost_eq (c.withLen l1), withLen_cs, withLen_mask', masksPost_eq c]
+      simp only [List.mem_append, List.mem_singleton]
+      tauto
+
+/-! ### the driver's split → length function is the per-split length total of the tree as drawn -/
+
+theorem lenAt_edgeMap_snoc (es : List EdgeRec) (e : EdgeRec) (k : Int) :
+    lenAt (edgeMap (es ++ [e])) k = if k = e.split then e.len.getD 0 else lenAt (edgeMap es) k := by
+  unfold lenAt
+  rw [lookup_edgeMap_snoc]
+  by_cases h : k = e.split <;> simp [h]
+
+theorem lenAt_edgeMap_eq_sum : ∀ (es : List EdgeRec), (es.map (·.split)).Nodup → ∀ k : Int,
+    lenAt (edgeMap es) k = ((es.filter (fun e => e.split == k)).map (fun e => e.len.getD 0)).sum := by
+  intro es
+  induction es using List.reverseRecOn with
+  | nil => intro _ k; simp [edgeMap, lenAt, lookup]
+  | append_singleton init last ih =>
+    intro hn k
+    rw [List.map_append, List.nodup_append] at hn
+    obtain ⟨hn1, _, hdis⟩ := hn
+    rw [lenAt_edgeMap_snoc, List.filter_append, List.map_append, List.sum_append]
+    by_cases hk : k = last.split
+    · subst hk
+      have hnil : init.filter (fun e => e.split == last.split) = [] := by
+        rw [List.filter_eq_nil_iff]
+        intro e he hk
+        simp only [beq_iff_eq] at hk
+        exact hdis e.split (List.mem_map.mpr ⟨e, he, rfl⟩) last.split (by simp) hk
+      simp [hnil]
+    · have hk' : ¬ last.split = k := fun e => hk e.symm
+      simp [hk, hk', ih hn1 k]
+
+theorem psum_false (P : Nat → Bool) (es : List (Nat × Option Frac × Bool)) (h : ∀ m, P m = false) : psum P es = 0 := by
+  unfold psum
+  rw [List.filter_eq_nil_iff.mpr (by intro e _; simp [h e.1])]
+  simp
+
+end DendroModel.C04.Aux
+
+namespace DendroModel.C04
+open DendroModel DendroModel.C04.Aux
+
+/-- **the length the driver's split → edge map assigns to a split is the total length of the edges of the tree AS DRAWN that
+    induce it** (missing lengths counting 0): unifurcation suppression merges lengths by adding them (`addLen`), and with
+    pairwise distinct splits the map loses no edge.  Any rooting state without basal collapse (`hr`); lengths with non-zero
+    denominators (`hw`, true of everything `Frac.parse` produces). -/
+theorem lenAt_eq_split_sum (r : Option Bool) (t : T) (hr : r = some true ∨ t.cs.length ≠ 2) (hw : WFT t)
+    (hn : ((edgeRecs r t).map (·.split)).Nodup) (k : Int) :
+    lenAt (edgeMap (edgeRecs r t)) k
+      = psum (fun m => C01.splitOf (r == some true) t.mask m == k) (edgesPost true t) := by
+  rw [lenAt_edgeMap_eq_sum _ hn k, ← psum_sup _ t true hw]
+  unfold edgeRecs psum
+  simp only [encodeTree_sup r t hr, sup_mask']
+  rw [List.filter_map, List.map_map]
+  rfl
+
+/-- … for a well-formed rooted tree, with nothing left to assume about the splits: the length at leafset `m` is the total
+    length of the drawn edges whose leafset is `m`; at an integer that is no leafset it is 0 -/
+theorem lenAt_eq_split_sum_rooted (t : T) (hg : Hier.Good (T.toH t)) (h0 : T.mask t ≠ 0) (hw : WFT t) :
+    (∀ m : Nat, lenAt (edgeMap (edgeRecs (some true) t)) (m : Int) = psum (fun m' => m' == m) (edgesPost true t))
+    ∧ (∀ n : Nat, lenAt (edgeMap (edgeRecs (some true) t)) (Int.negSucc n) = 0) := by
+  have key := lenAt_eq_split_sum (some true) t (Or.inl rfl) hw (rooted_splits_nodup t hg h0)
+  constructor
+  · intro m
+    rw [key]
+    congr 1
+    funext m'
+    simp [C01.splitOf]
+  · intro n
+    rw [key]
+    apply psum_false
+    intro m
+    simp [C01.splitOf]
+
+/-- **re-drawing a well-formed rooted tree — children reordered, unifurcations inserted with the length split — changes no
+    weighted distance** (this is `dist_child_order_partial` without its restrictions, for rooted trees): against any third
+    tree, in both argument positions, the values of weighted RF and of the squared Euclidean distance agree whenever both are
+    defined, and both are 0 between the two drawings whenever defined.  (Definedness itself can differ only through a
+    missing length being replaced by an explicit 0 part or vice versa, which `Redraw.unif` permits.) -/
+theorem dist_redraw_rooted (r2 : Option Bool) (t t' u : T) (h : Redraw t t')
+    (hg : Hier.Good (T.toH t)) (h0 : T.mask t ≠ 0) (hw : WFT t)
+    (hg' : Hier.Good (T.toH t')) (h0' : T.mask t' ≠ 0) (hw' : WFT t') :
+    (∀ w w', wrf (edgeMap (edgeRecs (some true) t)) (edgeMap (edgeRecs r2 u)) = some w →
+        wrf (edgeMap (edgeRecs (some true) t')) (edgeMap (edgeRecs r2 u)) = some w' → w = w')
+    ∧ (∀ w w', wrf (edgeMap (edgeRecs r2 u)) (edgeMap (edgeRecs (some true) t)) = some w →
+        wrf (edgeMap (edgeRecs r2 u)) (edgeMap (edgeRecs (some true) t')) = some w' → w = w')
+    ∧ (∀ w w', euclidSq (edgeMap (edgeRecs (some true) t)) (edgeMap (edgeRecs r2 u)) = some w →
+        euclidSq (edgeMap (edgeRecs (some true) t')) (edgeMap (edgeRecs r2 u)) = some w' → w = w')
+    ∧ (∀ w w', euclidSq (edgeMap (edgeRecs r2 u)) (edgeMap (edgeRecs (some true) t)) = some w →
+        euclidSq (edgeMap (edgeRecs r2 u)) (edgeMap (edgeRecs (some true) t')) = some w' → w = w')
+    ∧ (∀ w, wrf (edgeMap (edgeRecs (some true) t)) (edgeMap (edgeRecs (some true) t')) = some w → w = 0)
+    ∧ (∀ w, euclidSq (edgeMap (edgeRecs (some true) t)) (edgeMap (edgeRecs (some true) t')) = some w → w = 0) := by
+  obtain ⟨_, hps, hms⟩ := redraw_inv h
+  have n1 := nodup_edgeMap (edgeRecs (some true) t)
+  have n1' := nodup_edgeMap (edgeRecs (some true) t')
+  have n2 := nodup_edgeMap (edgeRecs r2 u)
+  have hl : ∀ k, lenAt (edgeMap (edgeRecs (some true) t)) k = lenAt (edgeMap (edgeRecs (some true) t')) k := by
+    intro k
+    obtain ⟨a1, a2⟩ := lenAt_eq_split_sum_rooted t hg h0 hw
+    obtain ⟨b1, b2⟩ := lenAt_eq_split_sum_rooted t' hg' h0' hw'
+    cases k with
+    | ofNat m => rw [show Int.ofNat m = (m : Int) from rfl, a1 m, b1 m, hps]
+    | negSucc n => rw [a2 n, b2 n]
+  have hk : ∀ x, x ∈ keys (edgeMap (edgeRecs (some true) t)) ↔ x ∈ keys (edgeMap (edgeRecs (some true) t')) := by
+    intro x
+    rw [keys_edgeMap, keys_edgeMap, edgeRecs_splits_rooted, edgeRecs_splits_rooted]
+    simp only [List.mem_map]
+    constructor
+    · rintro ⟨m, hm, rfl⟩
+      exact ⟨m, (C01.suppress_keeps_masks t').2.2 m |>.mpr ((hms m).mp ((C01.suppress_keeps_masks t).2.2 m |>.mp hm)), rfl⟩
+    · rintro ⟨m, hm, rfl⟩
+      exact ⟨m, (C01.suppress_keeps_masks t).2.2 m |>.mpr ((hms m).mpr ((C01.suppress_keeps_masks t').2.2 m |>.mp hm)), rfl⟩
+  refine ⟨?_, ?_, ?_, ?_, ?_, ?_⟩
+  · intro w w' hw1 hw2; exact wrf_congr _ _ _ n1 n1' n2 hk hl w w' hw1 hw2
+  · intro w w' hw1 hw2
+    rw [wrf_symm _ _ n2 n1] at hw1; rw [wrf_symm _ _ n2 n1'] at hw2
+    exact wrf_congr _ _ _ n1 n1' n2 hk hl w w' hw1 hw2
+  · intro w w' hw1 hw2; exact euclidSq_congr _ _ _ n1 n1' n2 hk hl w w' hw1 hw2
+  · intro w w' hw1 hw2
+    rw [euclidSq_symm _ _ n2 n1] at hw1; rw [euclidSq_symm _ _ n2 n1'] at hw2
+    exact euclidSq_congr _ _ _ n1 n1' n2 hk hl w w' hw1 hw2
+  · intro w hw1; exact ((dist_zero_iff _ _ n1 n1').1 w hw1).mpr hl
+  · intro w hw1; exact ((dist_zero_iff _ _ n1 n1').2 w hw1).mpr hl
+
+/-- sample: `exA` with a unifurcation inserted above the clade `(t0,t1)`, its length 1/2 split as 1/4 + 1/4, children reordered -/
+def Aux.exA' : T := .node 0 none none none [.node 4 (some 2) (some ⟨3, 1⟩) none [],
+  .node 9 none (some ⟨1, 4⟩) none [.node 1 none (some ⟨1, 4⟩) none [.node 2 (some 0) (some ⟨1, 1⟩) none [], .node 3 (some 1) (some ⟨2, 1⟩) none []]]]
+example : Redraw exA exA' :=
+  (Redraw.child 0 none none none [] _ _ [_]
+    (Redraw.unif (.node 1 none (some ⟨1, 2⟩) none [.node 2 (some 0) (some ⟨1, 1⟩) none [], .node 3 (some 1) (some ⟨2, 1⟩) none []])
+      9 none none (some ⟨1, 4⟩) (some ⟨1, 4⟩) (by simp [qlen, fracToRat, T.len]; norm_num [Rat.mkRat_eq_div]))).trans
+  (Redraw.swap 0 none none none [] _ _ [])
+example : WFT exA ∧ WFT exA' := by simp [exA, exA', WFT, WFTL, OWF]
+example : Hier.Good (T.toH exA') ∧ T.mask exA' ≠ 0 := by
+  simp [exA', T.toH, T.toHL, Hier.Good, Hier.GoodL, Hier.mask, Hier.maskL, T.mask, T.maskL]
+
+end DendroModel.C04
+
+namespace DendroModel.C04.Aux
+open DendroModel DendroModel.C04
+
+/-- one seed move on a model tree: the seed's internal child `D = node j y lj sj ds` becomes the seed; the old seed, with its
+    remaining children, hangs below it as last child and carries the length `lj` of the edge that was turned around; the
+    (meaningless, for an unrooted tree) length `l` of the seed edge stays on the seed -/
+def invertT (i : Nat) (x : Option Nat) (l : Option Frac) (s : Option String) (pre : List T)
+    (j : Nat) (y : Option Nat) (lj : Option Frac) (sj : Option String) (ds post : List T) : T :=
+  .node j y l sj (ds ++ [.node i x lj s (pre ++ post)])
+
+theorem invert_mask (i x l s) (pre : List T) (j y lj sj) (ds post : List T) (hds : ds ≠ []) (hpp : pre ++ post ≠ []) :
+    (invertT i x l s pre j y lj sj ds post).mask = T.mask (.node i x l s (pre ++ .node j y lj sj ds :: post)) := by
+  unfold invertT
+  rw [mask_of_ne_nil _ _ _ _ (by simp), mask_of_ne_nil _ _ _ _ (by simp), maskL_append, maskL_append]
+  simp only [T.maskL, Nat.or_zero]
+  rw [mask_of_ne_nil _ _ _ _ hpp, mask_of_ne_nil _ _ _ _ hds, maskL_append]
+  ac_rfl
+
+/-- a seed move keeps the total drawn length of every class of leafsets that does not separate the turned-around edge's two
+    sides — in particular of every normalised split -/
+theorem psum_invert (P : Nat → Bool) (i x l s) (pre : List T) (j y lj sj) (ds post : List T) (hds : ds ≠ []) (hpp : pre ++ post ≠ [])
+    (hP : P (T.maskL ds) = P (T.maskL (pre ++ post))) :
+    psum P (edgesPost true (invertT i x l s pre j y lj sj ds post))
+      = psum P (edgesPost true (.node i x l s (pre ++ .node j y lj sj ds :: post))) := by
+  have hm := invert_mask i x l s pre j y lj sj ds post hds hpp
+  rw [edgesPost_node true i x l s, ← hm]
+  unfold invertT at hm ⊢
+  rw [edgesPost_node, hm]
+  simp only [edgesPostL_append, edgesPostL, edgesPost_node, psum_append, psum_single, List.append_nil,
+    mask_of_ne_nil _ _ _ _ hpp, mask_of_ne_nil _ _ _ _ hds, hP]
+  ring
+
+end DendroModel.C04.Aux
+
+namespace DendroModel.C04.Aux
+open DendroModel DendroModel.C04
+
+theorem splitOf_invert (L a b : Nat) (hL : L = a ||| b) (hd : a &&& b = 0) (h0 : L ≠ 0) :
+    C01.splitOf false L a = C01.splitOf false L b := by
+  rw [C01.split_spec, C01.split_spec]
+  simp only [Bool.false_eq_true, if_false]
+  have hpos : 0 < L := Nat.pos_of_ne_zero h0
+  obtain ⟨k, hk, hkL, _⟩ := C01.lsb_spec L hpos
+  have hlo : Hier.bits (Lsb.lsb L) ⊆ Hier.bits L := by
+    rw [hk, Hier.bits_shift]; intro i hi; rw [Set.mem_singleton_iff] at hi; subst hi; exact hkL
+  have hsingle : ∀ x, Hier.bits (Lsb.lsb L) ⊆ Hier.bits x ∨ Disjoint (Hier.bits (Lsb.lsb L)) (Hier.bits x) := by
+    intro x
+    rw [hk, Hier.bits_shift]
+    by_cases h : k ∈ Hier.bits x
+    · left; intro i hi; rw [Set.mem_singleton_iff] at hi; subst hi; exact h
+    · right; exact Set.disjoint_singleton_left.mpr h
+  have hne : Lsb.lsb L ≠ 0 := by rw [hk]; exact Hier.shift_ne_zero k
+  have haL : Hier.bits a ⊆ Hier.bits L := by rw [hL, Hier.bits_or]; exact Set.subset_union_left
+  have hb : b = Hier.sdiff L a := by
+    apply Hier.bits_inj
+    rw [Hier.bits_sdiff, hL, Hier.bits_or]
+    have hdj := (Hier.and_eq_zero_iff a b).mp hd
+    ext i
+    simp only [Set.mem_sdiff, Set.mem_union]
+    constructor
+    · intro hi; exact ⟨Or.inr hi, fun ha => (Set.disjoint_left.mp hdj) ha hi⟩
+    · rintro ⟨hi | hi, hn⟩
+      · exact absurd hi hn
+      · exact hi
+  rw [hb, Hier.norm_compl L (Lsb.lsb L) a haL hlo hsingle hne]
+
+/-- membership in the driver's split list, through the leafsets of the tree as drawn -/
+theorem mem_splits_iff (r : Option Bool) (t : T) (hr : r = some true ∨ t.cs.length ≠ 2) (x : Int) :
+    x ∈ (edgeRecs r t).map (·.split) ↔ ∃ m ∈ T.masksPost t, C01.splitOf (r == some true) t.mask m = x := by
+  rw [edgeRecs_splits]
+  simp only [C01.encode, encodeTree_sup r t hr, sup_mask', List.map_map, List.mem_map, Function.comp]
+  constructor
+  · rintro ⟨m, hm, rfl⟩; exact ⟨m, ((C01.suppress_keeps_masks t).2.2 m).mp hm, rfl⟩
+  · rintro ⟨m, hm, rfl⟩; exact ⟨m, ((C01.suppress_keeps_masks t).2.2 m).mpr hm, rfl⟩
+
+end DendroModel.C04.Aux
+
+namespace DendroModel.C04
+open DendroModel DendroModel.C04.Aux
+
+/-- **one seed move of an unrooted tree changes no weighted distance** (`_partial`).  `t'` is `t` with the seed's internal child
+    `D` made the seed (`invertT`: the turned-around edge keeps its length); neither drawing has a bifurcating seed (so no basal
+    collapse); siblings' leafsets are disjoint (`hdis`).  Then the split → length functions of the two coincide, hence wRF and
+    Euclid² against any third tree agree whenever both are defined and are 0 between the two drawings.
+    Missing for the full clause: the two `Nodup` hypotheses are assumed, not derived (for a rooted tree they follow from
+    `rooted_splits_nodup`; the analogue for normalised splits of a tree whose seed has ≥ 3 children is not proved here), and
+    the iteration along a path is proved for the unweighted distances only (`fpfn_seed_path`). -/
+theorem dist_seed_move_partial (r r2 : Option Bool) (hr : r ≠ some true) (u : T)
+    (i : Nat) (x : Option Nat) (l : Option Frac) (s : Option String) (pre : List T)
+    (j : Nat) (y : Option Nat) (lj : Option Frac) (sj : Option String) (ds post : List T)
+    (hds : ds ≠ []) (hpp : pre ++ post ≠ [])
+    (h3 : (pre ++ T.node j y lj sj ds :: post).length ≠ 2) (h3' : ds.length ≠ 1)
+    (hdis : T.maskL ds &&& T.maskL (pre ++ post) = 0)
+    (h0 : T.mask (.node i x l s (pre ++ .node j y lj sj ds :: post)) ≠ 0)
+    (hw : WFT (.node i x l s (pre ++ .node j y lj sj ds :: post))) (hw' : WFT (invertT i x l s pre j y lj sj ds post))
+    (hn : ((edgeRecs r (.node i x l s (pre ++ .node j y lj sj ds :: post))).map (·.split)).Nodup)
+    (hn' : ((edgeRecs r (invertT i x l s pre j y lj sj ds post)).map (·.split)).Nodup) :
+    (∀ k, lenAt (edgeMap (edgeRecs r (.node i x l s (pre ++ .node j y lj sj ds :: post)))) k
+          = lenAt (edgeMap (edgeRecs r (invertT i x l s pre j y lj sj ds post))) k)
+    ∧ (∀ w w', wrf (edgeMap (edgeRecs r (.node i x l s (pre ++ .node j y lj sj ds :: post)))) (edgeMap (edgeRecs r2 u)) = some w →
+        wrf (edgeMap (edgeRecs r (invertT i x l s pre j y lj sj ds post))) (edgeMap (edgeRecs r2 u)) = some w' → w = w')
+    ∧ (∀ w w', euclidSq (edgeMap (edgeRecs r (.node i x l s (pre ++ .node j y lj sj ds :: post)))) (edgeMap (edgeRecs r2 u)) = some w →
+        euclidSq (edgeMap (edgeRecs r (invertT i x l s pre j y lj sj ds post))) (edgeMap (edgeRecs r2 u)) = some w' → w = w')
+    ∧ (∀ w, wrf (edgeMap (edgeRecs r (.node i x l s (pre ++ .node j y lj sj ds :: post))))
+          (edgeMap (edgeRecs r (invertT i x l s pre j y lj sj ds post))) = some w → w = 0)
+    ∧ (∀ w, euclidSq (edgeMap (edgeRecs r (.node i x l s (pre ++ .node j y lj sj ds :: post))))
+          (edgeMap (edgeRecs r (invertT i x l s pre j y lj sj ds post))) = some w → w = 0) := by
+  set t : T := .node i x l s (pre ++ .node j y lj sj ds :: post) with ht
+  set t' : T := invertT i x l s pre j y lj sj ds post with ht'
+  have hb : (r == some true) = false := by
+    cases r with
+    | none => rfl
+    | some b => cases b <;> simp_all
+  have hrt : r = some true ∨ t.cs.length ≠ 2 := Or.inr (by simpa [ht, T.cs] using h3)
+  have hrt' : r = some true ∨ t'.cs.length ≠ 2 := Or.inr (by simp [ht', invertT, T.cs]; omega)
+  have hm : t'.mask = t.mask := invert_mask i x l s pre j y lj sj ds post hds hpp
+  have hLeq : t.mask = T.maskL ds ||| T.maskL (pre ++ post) := by
+    rw [ht, mask_of_ne_nil _ _ _ _ (by simp), maskL_append, maskL_append]
+    simp only [T.maskL]
+    rw [mask_of_ne_nil _ _ _ _ hds]
+    ac_rfl
+  have hF : C01.splitOf false t.mask (T.maskL ds) = C01.splitOf false t.mask (T.maskL (pre ++ post)) :=
+    splitOf_invert t.mask _ _ hLeq hdis h0
+  have hl : ∀ k, lenAt (edgeMap (edgeRecs r t)) k = lenAt (edgeMap (edgeRecs r t')) k := by
+    intro k
+    rw [lenAt_eq_split_sum r t hrt hw hn k, lenAt_eq_split_sum r t' hrt' hw' hn' k, hm, hb]
+    exact (psum_invert _ i x l s pre j y lj sj ds post hds hpp (by rw [hF])).symm
+  have hk : ∀ z, z ∈ keys (edgeMap (edgeRecs r t)) ↔ z ∈ keys (edgeMap (edgeRecs r t')) := by
+    intro z
+    rw [keys_edgeMap, keys_edgeMap, mem_splits_iff r t hrt, mem_splits_iff r t' hrt', hm, hb]
+    have hD : T.mask (.node j y lj sj ds) = T.maskL ds := mask_of_ne_nil _ _ _ _ hds
+    have hR : T.mask (.node i x lj s (pre ++ post)) = T.maskL (pre ++ post) := mask_of_ne_nil _ _ _ _ hpp
+    have hm' : T.mask (.node j y l sj (ds ++ [.node i x lj s (pre ++ post)])) = t.mask := hm
+    simp only [ht, ht', invertT, masksPost_eq, T.cs, masksPostL_append', T.masksPostL, List.append_nil, List.mem_append,
+      List.mem_singleton, hD, hR, hm']
+    constructor
+    · rintro ⟨m, hmm, rfl⟩
+      rcases hmm with (h | (h | h) | h) | h
+      · exact ⟨m, Or.inl (Or.inr (Or.inl (Or.inl h))), rfl⟩
+      · exact ⟨m, Or.inl (Or.inl h), rfl⟩
+      · subst h; exact ⟨T.maskL (pre ++ post), Or.inl (Or.inr (Or.inr rfl)), hF.symm⟩
+      · exact ⟨m, Or.inl (Or.inr (Or.inl (Or.inr h))), rfl⟩
+      · exact ⟨m, Or.inr h, rfl⟩
+    · rintro ⟨m, hmm, rfl⟩
+      rcases hmm with (h | (h | h) | h) | h
+      · exact ⟨m, Or.inl (Or.inr (Or.inl (Or.inl h))), rfl⟩
+      · exact ⟨m, Or.inl (Or.inl h), rfl⟩
+      · exact ⟨m, Or.inl (Or.inr (Or.inr h)), rfl⟩
+      · subst h; exact ⟨T.maskL ds, Or.inl (Or.inr (Or.inl (Or.inr rfl))), hF⟩
+      · exact ⟨m, Or.inr h, rfl⟩
+  have n1 := nodup_edgeMap (edgeRecs r t)
+  have n1' := nodup_edgeMap (edgeRecs r t')
+  have n2 := nodup_edgeMap (edgeRecs r2 u)
+  refine ⟨hl, ?_, ?_, ?_, ?_⟩
+  · intro w w' hw1 hw2; exact wrf_congr _ _ _ n1 n1' n2 hk hl w w' hw1 hw2
+  · intro w w' hw1 hw2; exact euclidSq_congr _ _ _ n1 n1' n2 hk hl w w' hw1 hw2
+  · intro w hw1; exact ((dist_zero_iff _ _ n1 n1').1 w hw1).mpr hl
+  · intro w hw1; exact ((dist_zero_iff _ _ n1 n1').2 w hw1).mpr hl
+
+end DendroModel.C04
+
+namespace DendroModel.C04
+open DendroModel DendroModel.C04.Aux
+/-- non-vacuity of `dist_seed_move_partial`: `exU = ((t0,t1),t2,t3)` and the move to its inner vertex -/
+example :
+    let ds : List T := [.node 2 (some 0) none none [], .node 3 (some 1) none none []]
+    let post : List T := [.node 4 (some 2) none none [], .node 5 (some 3) none none []]
+    exU = .node 0 none none none ([] ++ .node 1 none none none ds :: post)
+    ∧ T.maskL ds &&& T.maskL ([] ++ post) = 0 ∧ T.mask exU ≠ 0
+    ∧ WFT exU ∧ WFT (invertT 0 none none none [] 1 none none none ds post)
+    ∧ ((edgeRecs (some false) exU).map (·.split)).Nodup
+    ∧ ((edgeRecs (some false) (invertT 0 none none none [] 1 none none none ds post)).map (·.split)).Nodup := by
+  refine ⟨rfl, by decide, by decide, ?_, ?_, by decide, by decide⟩
+  · simp [exU, WFT, WFTL, OWF]
+  · simp [invertT, WFT, WFTL, OWF]
+end DendroModel.C04
+
+/-! ## staleness switch, namespace refusal, histories (Model/C04State.lean) -/
+namespace DendroModel.C04.Aux
+open DendroModel DendroModel.C04
+
+/-- the two current structures after a history: only the edits matter -/
+def curAfter : List Ev → T × T → T × T
+  | [], c => c
+  | .editA t :: evs, c => curAfter evs (t, c.2)
+  | .editB t :: evs, c => curAfter evs (c.1, t)
+  | .fpfn _ :: evs, c => curAfter evs c
+  | .missing _ :: evs, c => curAfter evs c
+  | .weighted :: evs, c => curAfter evs c
+
+theorem prepare_fields (u : Bool) (o : TreeObj) :
+    (o.prepare u).ns = o.ns ∧ (o.prepare u).rooted = o.rooted ∧ (o.prepare u).cur = o.cur := by
+  unfold TreeObj.prepare TreeObj.encode
+  cases u <;> cases o.enc <;> simp
+
+theorem step_fields (st : TreeObj × TreeObj) (e : Ev) :
+    (step st e).1.ns = st.1.ns ∧ (step st e).2.ns = st.2.ns ∧ (step st e).1.rooted = st.1.rooted ∧ (step st e).2.rooted = st.2.rooted
+    ∧ ((step st e).1.cur, (step st e).2.cur) = curAfter [e] (st.1.cur, st.2.cur) := by
+  cases e with
+  | editA t => simp [step, TreeObj.edit, curAfter]
+  | editB t => simp [step, TreeObj.edit, curAfter]
+  | fpfn u =>
+    simp only [step, fpfnCall, curAfter]
+    split <;> simp [prepare_fields]
+  | missing u =>
+    simp only [step, missingCall, curAfter]
+    split <;> simp [prepare_fields]
+  | weighted =>
+    simp only [step, weightedCall, curAfter]
+    split <;> simp [TreeObj.encode]
+
+theorem curAfter_cons (e : Ev) (evs : List Ev) (c : T × T) : curAfter (e :: evs) c = curAfter evs (curAfter [e] c) := by
+  cases e <;> simp [curAfter]
+
+theorem run_fields : ∀ (evs : List Ev) (st : TreeObj × TreeObj),
+    (run evs st).1.ns = st.1.ns ∧ (run evs st).2.ns = st.2.ns ∧ (run evs st).1.rooted = st.1.rooted ∧ (run evs st).2.rooted = st.2.rooted
+    ∧ ((run evs st).1.cur, (run evs st).2.cur) = curAfter evs (st.1.cur, st.2.cur)
+  | [], st => by simp [run, curAfter]
+  | e :: evs, st => by
+    obtain ⟨a1, a2, a3, a4, a5⟩ := step_fields st e
+    obtain ⟨b1, b2, b3, b4, b5⟩ := run_fields evs (step st e)
+    have : run (e :: evs) st = run evs (step st e) := rfl
+    rw [this, curAfter_cons, ← a5]
+    exact ⟨b1.trans a1, b2.trans a2, b3.trans a3, b4.trans a4, b5⟩
+
+end DendroModel.C04.Aux
+
+namespace DendroModel.C04
+open DendroModel DendroModel.C04.Aux
+
+/-- **with default arguments the result reflects the current structures, never the stored encoding**: the value (and the
+    refusal) of a call with `is_bipartitions_updated=False` is a function of the two namespaces, rooting flags and CURRENT
+    structures alone — whatever encodings the tree objects carry -/
+theorem default_call_ignores_stored_encoding (a b : TreeObj) :
+    (fpfnCall false a b).1 = (if a.ns != b.ns then none else some (fpfn a.fresh b.fresh))
+    ∧ (missingCall false a b).1 = (if a.ns != b.ns then none else some (missing a.fresh b.fresh))
+    ∧ (weightedCall a b).1 = (if a.ns != b.ns then none else
+        some (wrf (edgeMap (edgeRecs a.rooted a.cur)) (edgeMap (edgeRecs b.rooted b.cur)),
+              euclidSq (edgeMap (edgeRecs a.rooted a.cur)) (edgeMap (edgeRecs b.rooted b.cur)))) := by
+  refine ⟨?_, ?_, ?_⟩
+  · unfold fpfnCall; split <;> simp [TreeObj.prepare, TreeObj.encode, TreeObj.splits]
+  · unfold missingCall; split <;> simp [TreeObj.prepare, TreeObj.encode, TreeObj.splits]
+  · unfold weightedCall; split <;> simp
+
+/-- **for all interleavings of structural edits with distance calls**: after ANY history of edits (of either tree) and calls
+    (of any of the functions, with either value of `is_bipartitions_updated`), a call with default arguments on two trees over
+    one namespace returns exactly the value of the two current structures (`curAfter`: the last edit of each tree, or its
+    initial structure) — the stored encodings, however stale, are never used -/
+theorem history_default_call_is_fresh (evs : List Ev) (a b : TreeObj) (hns : a.ns = b.ns) :
+    (fpfnCall false (run evs (a, b)).1 (run evs (a, b)).2).1
+        = some (fpfn ((edgeRecs a.rooted (curAfter evs (a.cur, b.cur)).1).map (·.split))
+                     ((edgeRecs b.rooted (curAfter evs (a.cur, b.cur)).2).map (·.split)))
+    ∧ (missingCall false (run evs (a, b)).1 (run evs (a, b)).2).1
+        = some (missing ((edgeRecs a.rooted (curAfter evs (a.cur, b.cur)).1).map (·.split))
+                        ((edgeRecs b.rooted (curAfter evs (a.cur, b.cur)).2).map (·.split)))
+    ∧ (weightedCall (run evs (a, b)).1 (run evs (a, b)).2).1
+        = some (wrf (edgeMap (edgeRecs a.rooted (curAfter evs (a.cur, b.cur)).1)) (edgeMap (edgeRecs b.rooted (curAfter evs (a.cur, b.cur)).2)),
+                euclidSq (edgeMap (edgeRecs a.rooted (curAfter evs (a.cur, b.cur)).1)) (edgeMap (edgeRecs b.rooted (curAfter evs (a.cur, b.cur)).2))) := by
+  obtain ⟨h1, h2, h3, h4, h5⟩ := run_fields evs (a, b)
+  simp only at h1 h2 h3 h4 h5
+  have hc1 : (run evs (a, b)).1.cur = (curAfter evs (a.cur, b.cur)).1 := congrArg Prod.fst h5
+  have hc2 : (run evs (a, b)).2.cur = (curAfter evs (a.cur, b.cur)).2 := congrArg Prod.snd h5
+  have hne : ((run evs (a, b)).1.ns != (run evs (a, b)).2.ns) = false := by rw [h1, h2, hns]; simp
+  obtain ⟨d1, d2, d3⟩ := default_call_ignores_stored_encoding (run evs (a, b)).1 (run evs (a, b)).2
+  rw [d1, d2, d3, hne]
+  simp only [Bool.false_eq_true, if_false, TreeObj.fresh, h3, h4, hc1, hc2]
+  refine ⟨?_, ?_, ?_⟩ <;> first | rfl | trivial
+
+/-- **trees over different namespaces are refused** by every function, whatever the flag and the stored encodings; trees over
+    one namespace never are (for that reason) -/
+theorem namespace_refusal (u : Bool) (a b : TreeObj) :
+    ((fpfnCall u a b).1 = none ↔ a.ns ≠ b.ns) ∧ ((missingCall u a b).1 = none ↔ a.ns ≠ b.ns)
+    ∧ ((weightedCall a b).1 = none ↔ a.ns ≠ b.ns) := by
+  refine ⟨?_, ?_, ?_⟩
+  · unfold fpfnCall; by_cases h : a.ns = b.ns <;> simp [h]
+  · unfold missingCall; by_cases h : a.ns = b.ns <;> simp [h]
+  · unfold weightedCall; by_cases h : a.ns = b.ns <;> simp [h]
+
+/-- the switch is real: with `is_bipartitions_updated=True` two already-encoded trees are compared on their STORED encodings -/
+theorem updated_call_uses_stored_encoding (a b : TreeObj) (hns : a.ns = b.ns) (l1 l2 : List Int)
+    (h1 : a.enc = some l1) (h2 : b.enc = some l2) :
+    (fpfnCall true a b).1 = some (fpfn l1 l2) ∧ (missingCall true a b).1 = some (missing l1 l2) := by
+  constructor
+  · unfold fpfnCall; simp [hns, TreeObj.prepare, TreeObj.splits, h1, h2]
+  · unfold missingCall; simp [hns, TreeObj.prepare, TreeObj.splits, h1, h2]
+
+/-- non-vacuity: after encoding `exA` against itself and then editing the first tree into `exC`, the default call sees the
+    edit (RF 2) while `is_bipartitions_updated=True` still answers from the stored encoding (RF 0) -/
+example :
+    let st := run [.fpfn false, .editA exC] (⟨0, some true, exA, none⟩, ⟨0, some true, exA, none⟩)
+    (fpfnCall false st.1 st.2).1 = some (1, 1) ∧ (fpfnCall true st.1 st.2).1 = some (0, 0) := by decide
+example : (fpfnCall false ⟨0, some true, exA, none⟩ ⟨1, some true, exA, none⟩).1 = none := by decide
+
 end DendroModel.C04
